@@ -32,6 +32,62 @@ func TestVerif_C05(t *testing.T) {
 	for ep := 0; ep < evid.Pick(48, 1600) && rec.Violations() < 30; ep++ {
 		vfC05NameReuse(rec, ep)
 	}
+	vfC05MntSpellings(rec)
+}
+
+// vfC05MntSpellings: MNT is the one procedure that takes a free-form path. While the handle of a
+// directory is live, mounting that directory under any spelling of its path (trailing slash,
+// doubled slashes, "." and ".." components) must return the same handle value, and the table must
+// hold one entry for it.
+func vfC05MntSpellings(rec *evid.Rec) {
+	fs := refs.New()
+	fs.PlantDir("/export", 0755, 0, 0)
+	fs.PlantDir("/export/data", 0755, 0, 0)
+	fs.PlantDir("/export/other", 0755, 0, 0)
+	srv, err := vfNewSrv(fs, ExportOptions{AttrCacheTimeout: 1})
+	if err != nil {
+		rec.Infra(err.Error())
+		return
+	}
+	defer srv.Close()
+	c := srv.client()
+	for _, first := range []string{"MNT", "LOOKUP"} {
+		var h uint64
+		if first == "MNT" {
+			h, err = c.mnt("/export/data")
+		} else {
+			var root uint64
+			root, err = c.mnt("/")
+			if err == nil {
+				if l, _ := c.lookup(root, "export"); l != nil && l.Status == 0 {
+					if l2, _ := c.lookup(vfFH(l.FH), "data"); l2 != nil && l2.Status == 0 {
+						h = vfFH(l2.FH)
+					}
+				}
+			}
+		}
+		if err != nil || h == 0 {
+			rec.Infra("mnt/lookup of /export/data")
+			return
+		}
+		before := srv.nfs.fileMap.Count()
+		for _, sp := range []string{"/export/data", "/export/data/", "//export/data", "/export//data", "/export/./data", "/export/data/.", "/export/other/../data", "/./export/data", "/export/data//"} {
+			rec.Eval(1)
+			h2, merr := c.mnt(sp)
+			if merr != nil {
+				rec.Distinct("mnt-spelling|refused")
+				continue // refusing an odd spelling is fine
+			}
+			if h2 != h {
+				rec.Violate("C05/two-live-values-for-one-path/MNT-spelling", fmt.Sprintf("/export/data has the live handle %d (from %s); MNT %q returned %d", h, first, sp, h2), map[string]any{"spelling": sp, "first": first})
+			}
+			rec.Distinct(fmt.Sprintf("mnt-spelling|first=%s|same-value=%v", first, h2 == h))
+		}
+		if after := srv.nfs.fileMap.Count(); after != before {
+			rec.Violate("C05/two-live-values-for-one-path/MNT-spelling/table-grew", fmt.Sprintf("mounting one directory under 9 spellings of its path grew the handle table from %d to %d entries", before, after), nil)
+		}
+		srv.nfs.fileMap.ReleaseAll()
+	}
 }
 
 func vfC05Direct(rec *evid.Rec, ep int) {
